@@ -4,7 +4,7 @@ from __future__ import annotations
 
 import ast
 
-from sa.cfg import all_paths_pass, dominators, reachable, reaches
+from sa.cfg import all_paths_pass, dominators, reachable, reaches, specialize
 from sa.db import AnalysisError, FuncInfo, ancestors, bind_args, dotted, src, walk_local
 from sa.model import contains, enclosing
 from sa.variants import Variant, chain, replace_once, sub_first, sub_once
@@ -45,6 +45,7 @@ def run(ctx) -> None:
     rep.rule("C19.R5", "node metadata read by validators cannot be stale after renames", floor=1)
     rep.rule("C19.R6", "strict type validation covers every value of every data edge", floor=3)
     rep.rule("C19.R7", "the shared-output check examines every unordered pair of producers", floor=2)
+    rep.rule("C19.R9", "the Union rule of strict type checking decomposes a type into members only when that type is known to be a Union", floor=3)
     rep.rule("C19.R8", "gate-kind exhaustiveness: a test for one concrete gate class is either completed by its siblings or goes on to use something only that class has", floor=6)
 
     vg = db.func("graph.validation.validate_graph")
@@ -234,6 +235,34 @@ def run(ctx) -> None:
     # ---- R8 ---------------------------------------------------------------------
     check_gate_kind_exhaustive(ctx, "C19.R8")
 
+    # ---- R9 ---------------------------------------------------------------------
+    hu = db.func("_typing._handle_union_types")
+    hcfg = ctx.cfg(hu)
+    tparams = [p for p in hu.param_names if p.endswith("_type")]
+    flags: dict[str, str] = {}
+    for nm, ds in db.local_defs(hu).items():
+        for d in ds:
+            v = getattr(d, "value", None)
+            if v is None:
+                continue
+            t = src(v)
+            for tp in tparams:
+                if f"get_origin({tp}) is Union" in t or f"isinstance({tp}, UnionType)" in t:
+                    flags[tp] = nm
+    if len(flags) < 2:
+        raise AnalysisError("_handle_union_types: union flags not recognised")
+    n9 = 0
+    for n in hcfg.nodes:
+        for c in hcfg.calls_at(n):
+            if dotted(c.func) == "get_args" and c.args and isinstance(c.args[0], ast.Name) and c.args[0].id in flags:
+                tp = c.args[0].id
+                n9 += 1
+                live = reachable(hcfg.entry, specialize({flags[tp]: False}, hcfg))
+                ok = n not in live
+                rep.add("C19.R9", f"{hu.qname}:get_args({tp})#{n9}", ok, f"{hu.module.rel}:{n.lineno}", f"members of {tp} are taken only when it is a Union" if ok else f"get_args({tp}) is evaluated although {tp} need not be a Union: a parameterised generic (list[X], dict[K, V]) is split into its type arguments and the Union's members are compared with those instead of with the generic — 'str | None -> list[str | None]' is accepted by a strict graph")
+    if n9 < 3:
+        raise AnalysisError(f"only {n9} union decompositions found")
+
     # ---- R7 ---------------------------------------------------------------------
     voc_f = db.func("graph._conflict.validate_output_conflicts")
     n_pairs = 0
@@ -373,6 +402,7 @@ def check_gate_kind_exhaustive(ctx, rule: str, modules: tuple[str, ...] = ("hype
 
 
 VARIANTS = [
+    Variant("union-rule-splits-generic", "src/hypergraph/_typing.py", replace_once("        return all(is_type_compatible(t, required_type, memo) for t in get_args(incoming_type))", "        required_args = get_args(required_type) or (required_type,)\n        return _all_types_compatible(get_args(incoming_type), required_args, memo)"), {"C19.R9"}),
     Variant("gate-targets-route-only", VA, chain(replace_once("    from hypergraph.nodes.gate import END, GateNode\n\n    for node in nodes.values():\n        if not isinstance(node, GateNode):\n            continue\n\n        for target in node.targets:", "    from hypergraph.nodes.gate import END, RouteNode\n\n    for node in nodes.values():\n        if not isinstance(node, RouteNode):\n            continue\n\n        for target in node.targets:")), {"C19.R8"}),
     Variant("twin-gate-targets-both-kinds", VA, chain(replace_once("    from hypergraph.nodes.gate import END, GateNode\n\n    for node in nodes.values():\n        if not isinstance(node, GateNode):\n            continue\n\n        for target in node.targets:", "    from hypergraph.nodes.gate import END, IfElseNode, RouteNode\n\n    for node in nodes.values():\n        if not isinstance(node, (RouteNode, IfElseNode)):\n            continue\n\n        for target in node.targets:")), set()),
     Variant("validator-orphaned", VA, replace_once("    _validate_wait_for_references(nodes)\n    if strict_types:", "    if strict_types:"), {"C19.R1"}),
